@@ -270,6 +270,59 @@ impl KBytes {
     }
 }
 
+/// key type `&[u32]`: keys of the same length that share their first elements and differ in the later ones
+struct KWords {
+    kind: usize,
+    v: Vec<Vec<u32>>,
+    n: usize,
+}
+impl KWords {
+    #[allow(dead_code)]
+    const FAM: &'static str = "&[u32]";
+    fn make(s: &Scn) -> Self {
+        let kind = s.kk % 3;
+        let key = |i: usize| -> Vec<u32> {
+            let x = bij64(i as u64, 91);
+            match kind {
+                // the index in the last two of four elements
+                0 => vec![7, 7, x as u32, (x >> 32) as u32],
+                // the index in the last element only, after a long constant prefix
+                1 => {
+                    let mut v = vec![0xDEAD_BEEFu32; 9];
+                    v.push(i as u32);
+                    v
+                }
+                // variable length: i in base 2^16, one digit per element (at least one element)
+                _ => {
+                    let mut v = vec![];
+                    let mut y = i;
+                    loop {
+                        v.push((y & 0xFFFF) as u32);
+                        y >>= 16;
+                        if y == 0 {
+                            break;
+                        }
+                    }
+                    v
+                }
+            }
+        };
+        KWords { kind, v: (0..s.n + s.nonmembers).map(key).collect(), n: s.n }
+    }
+    fn src(&self) -> WordsSrc<'_> {
+        WordsSrc::new(&self.v[..self.n])
+    }
+    fn q(&self, i: usize) -> &[u32] {
+        self.v[i].as_slice()
+    }
+    fn show(&self, i: usize) -> String {
+        format!("{:?}", self.v[i])
+    }
+    fn kind(&self) -> String {
+        format!("&[u32]:{}", ["index-in-tail", "long-constant-prefix", "base-65536-digits"][self.kind])
+    }
+}
+
 // ---------------------------------------------------------------------------
 // the monitor
 
@@ -500,6 +553,8 @@ func_variant!(v_u32_bfv_noshards64_usize, u32, bfv, S1, FuseLge3NoShards, KUsize
 func_variant!(v_usize_bfv_fullsigs_string, usize, bfv, S2, FuseLge3FullSigs, KString);
 func_variant!(v_u64_box_fullsigs_str, u64, boxed, S2, FuseLge3FullSigs, KStr);
 func_variant!(v_u32_bfv_fullsigs_bytes, u32, bfv, S2, FuseLge3FullSigs, KBytes);
+func_variant!(v_u16_bfv_shards_words, u16, bfv, S2, FuseLge3Shards, KWords);
+func_variant!(v_u64_box_noshards64_words, u64, boxed, S1, FuseLge3NoShards, KWords);
 func_variant!(v_u8_bfv_fullsigs_u64, u8, bfv, S2, FuseLge3FullSigs, KU64);
 
 struct Variant {
@@ -530,6 +585,8 @@ const VARIANTS: &[Variant] = &[
     Variant { name: "usize/BitFieldVec/sig128/FuseLge3FullSigs/key=String", run: v_usize_bfv_fullsigs_string, logic: 3, bits: 64, int_keys: false },
     Variant { name: "u64/Box/sig128/FuseLge3FullSigs/key=str", run: v_u64_box_fullsigs_str, logic: 3, bits: 64, int_keys: false },
     Variant { name: "u32/BitFieldVec/sig128/FuseLge3FullSigs/key=&[u8]", run: v_u32_bfv_fullsigs_bytes, logic: 3, bits: 32, int_keys: false },
+    Variant { name: "u16/BitFieldVec/sig128/FuseLge3Shards/key=&[u32]", run: v_u16_bfv_shards_words, logic: 0, bits: 16, int_keys: false },
+    Variant { name: "u64/Box/sig64/FuseLge3NoShards/key=&[u32]", run: v_u64_box_noshards64_words, logic: 2, bits: 64, int_keys: false },
     Variant { name: "u8/BitFieldVec/sig128/FuseLge3FullSigs/key=u64", run: v_u8_bfv_fullsigs_u64, logic: 3, bits: 8, int_keys: true },
 ];
 
